@@ -179,6 +179,9 @@ class DagLoopWorld(QueryWorld):
         if isinstance(obj, NodeV):
             if name in ("split", "rsplit") and args and isinstance(args[0], Const) and args[0].v == "_":
                 return ListObj([obj])
+            if name in ("partition", "rpartition") and len(args) == 1 and isinstance(args[0], Const) and args[0].v == "_":
+                # labels contain no '_' (the property's own restriction): nothing to cut
+                return TupleV([obj, Const(""), Const("")]) if name == "partition" else TupleV([Const(""), Const(""), obj])
             if name == "startswith" and len(args) == 1 and isinstance(args[0], NodeV):
                 return Const(LABELS[obj.role].startswith(LABELS[args[0].role]))
         if isinstance(obj, Const) and obj.v == "_" and name == "join" and len(args) == 1 and isinstance(args[0], ListObj):
